@@ -56,6 +56,29 @@ def np_type(kind):
             "u32": np.uint32, "u64": np.uint64, "f32": np.float32, "f64": np.float64, "b1": np.bool_, "str": np.str_}[kind]
 
 
+NON_ASCII = "10 \u00b5m gap"  # datasets hold ASCII byte strings: text like this must be refused, never stored altered
+DICT_KEYS = {"p": "p", "q": "q", "r": "r", "u": "\u00b5"}  # key id -> key
+DICT_IDS = {v: k for k, v in DICT_KEYS.items()}
+
+
+def with_layout(arr, lay):
+    """the same logical array in another memory layout (C row-major, F Fortran-ordered, T transposed view of a C array,
+    S strided non-contiguous view)"""
+    np = _np()
+    if lay == "F":
+        out = np.asfortranarray(arr)
+    elif lay == "T":
+        out = np.ascontiguousarray(arr.T).T
+    elif lay == "S":
+        big = np.zeros(arr.shape[:-1] + (2 * arr.shape[-1],), dtype=arr.dtype)
+        big[..., ::2] = arr
+        out = big[..., ::2]
+    else:
+        return arr
+    assert out.shape == arr.shape and np.array_equal(out, arr, equal_nan=arr.dtype.kind == "f")
+    return out
+
+
 def value(kind, vid):
     """concrete scalar for (kind, value id)"""
     np = _np()
@@ -81,7 +104,7 @@ def value(kind, vid):
         x = {"a": True, "b": False}[vid]
         return x if kind == "bool" else np.bool_(x)
     if kind == "str":
-        return {"a": "x", "b": "yz"}[vid]
+        return {"a": "x", "b": "yz", "u": NON_ASCII}[vid]
     raise AssertionError("unknown kind " + kind)
 
 
@@ -96,14 +119,14 @@ def concretize(e):
     if t == "sc":
         return value(e["k"], e["v"])
     if t == "dict":
-        return {k: value(e["k"], v) for k, v in e["m"]}
+        return {DICT_KEYS[k]: value(e["k"], v) for k, v in e["m"]}
     if t == "rag":
         return [[value(e["k"], v) for v in row] for row in e["rows"]]
     if t == "seq":
         sh = e["sh"]
         if e["c"] == "nd":
             flat = [value(e["k"], v) for v in e["vs"]]
-            return np.array(flat, dtype=np_type(e["k"])).reshape(sh)
+            return with_layout(np.array(flat, dtype=np_type(e["k"])).reshape(sh), e.get("lay", "C"))
         flat = [value(e["k"], v) for v in e["vs"]]
 
         def nest(vals, shape):
@@ -207,7 +230,7 @@ def abstract(got, e):
     if got is None:
         return {"t": "U"}
     if isinstance(got, dict):
-        kept = sorted((str(k), v) for k, v in got.items())  # a NaN-valued key that comes back is a key that came back
+        kept = sorted((DICT_IDS.get(str(k), "?" + str(k)), v) for k, v in got.items())  # a NaN-valued key that comes back is a key that came back
         cl = sorted({_cls_of(v) for _, v in kept})
         wrote = dict((k, v) for k, v in e["m"]) if e["t"] == "dict" else {}
         return {"t": "dict", "c": "" if not kept else (cl[0] if len(cl) == 1 else "mixed"),
@@ -487,7 +510,7 @@ def describe(case):
 # ------------------------------------------------------------------------------------------------------------
 SHAPES = [[0], [1], [2], [3], [4], [2, 2], [1, 2], [2, 1], [3, 2], [2, 3], [1, 1]]
 VIDS = {"int": ["hi2", "b", "a", "z", "m1", "lo1", "lo3"], "float": ["a", "b", "nan", "pinf", "ninf", "nz", "fmax"],
-        "bool": ["a", "b"], "str": ["a", "b"], "f32": ["a", "b", "pinf", "fmax"], "f64": ["a", "b", "nan", "pinf", "ninf", "nz"],
+        "bool": ["a", "b"], "str": ["a", "b", "a", "b", "a", "b", "u"], "f32": ["a", "b", "pinf", "fmax"], "f64": ["a", "b", "nan", "pinf", "ninf", "nz"],
         "b1": ["a", "b"]}
 for _k in ("i8", "i16", "i32", "i64"):
     VIDS[_k] = ["hi2", "b", "a", "z", "m1", "lo1", "lo3"]
@@ -514,14 +537,15 @@ def gen_seq(rng, kinds_nd, kinds_py, shapes=SHAPES, inner_none=0.06):
         k = rng.choice(kinds_nd)
         if n == 0:
             k = "f64"
-        return {"t": "seq", "c": "nd", "k": k, "sh": sh, "vs": [rng.choice(VIDS[k]) for _ in range(n)]}
+        return {"t": "seq", "c": "nd", "k": k, "sh": sh, "vs": [rng.choice(VIDS[k]) for _ in range(n)],
+                "lay": rng.choice(["C", "F", "T", "S"]) if len(sh) >= 2 else "C"}
     k = rng.choice(kinds_py)
     if n == 0:
         k = "float"
     vs = [rng.choice(VIDS[k]) for _ in range(n)]
     if n >= 2 and rng.random() < inner_none:
         vs[rng.randrange(1, n)] = "none"
-    return {"t": "seq", "c": c, "k": k, "sh": sh, "vs": vs}
+    return {"t": "seq", "c": c, "k": k, "sh": sh, "vs": vs, "lay": "C"}
 
 
 def gen_rag(rng, kinds_py):
@@ -532,7 +556,7 @@ def gen_rag(rng, kinds_py):
 
 def gen_dict(rng, kinds=("float", "float", "float", "int")):
     k = rng.choice(kinds)
-    keys = [key for key in ("p", "q", "r") if rng.random() < 0.55]
+    keys = [key for key in ("p", "q", "r") if rng.random() < 0.55] + (["u"] if rng.random() < 0.04 else [])
     return {"t": "dict", "k": k, "m": [[key, rng.choice(VIDS[k])] for key in keys]}
 
 
@@ -1056,7 +1080,8 @@ def run(rep, tier, seed):
         "I3 a collection never contains the None marker of its own dtype (layout.py:64); it does contain the other family's",
         "I4 widths are not observable after tolist(); exact dtypes compared for ragged results with one contributing dtype",
         "I5 numpy-integer scalars share a collection only with their own kind, None, strings, sequences, dictionaries",
-        "strings are ASCII; dictionaries map str to numbers; flag classes are dense (all fields auto(), as armi.reactor.flags.Flags)",
+        "text that is not ASCII must be refused at write time (datasets hold byte strings); memory layout of an array is a "
+        "don't-care (LayoutLaw); dictionaries map str to numbers; flag classes are dense (all fields auto(), as armi.reactor.flags.Flags)",
     )
 
 
@@ -1285,6 +1310,15 @@ MUTANTS = [
            [('attrs["keys"] = np.array(keys).astype("S")', 'attrs["keys"] = np.array(keys[::-1]).astype("S")')]),
     Mutant("_getArrayShape reports ndim instead of shape (jagged test)", DBM + ":Database._getArrayShape",
            [("return arr.shape", "return (arr.ndim,)")]),
+    Mutant("JaggedArray flattens in memory order (ravel K) while the reader rebuilds in C order",
+           "armi.bookkeeping.db.jaggedArray:JaggedArray.__init__",
+           [("flattenedArray.extend(numpyArray.flatten())", 'flattenedArray.extend(numpyArray.ravel(order="K"))')]),
+    Mutant("JaggedArray flattens with order='A' (Fortran arrays stored column major)", "armi.bookkeeping.db.jaggedArray:JaggedArray.__init__",
+           [("flattenedArray.extend(numpyArray.flatten())", 'flattenedArray.extend(numpyArray.flatten(order="A"))')]),
+    Mutant("unicode -> bytes with errors='replace' (non-ASCII text stored as '?')", DBM + ":Database._writeParams",
+           [('data = data.astype("S")', 'data = np.char.encode(data, "ascii", "replace")')]),
+    Mutant("dict keys -> bytes with errors='replace'", DBM + ":packSpecialData",
+           [('attrs["keys"] = np.array(keys).astype("S")', 'attrs["keys"] = np.char.encode(np.array(keys), "ascii", "replace")')]),
     Mutant("JaggedArray offsets advance by len() instead of size", "armi.bookkeeping.db.jaggedArray:JaggedArray.__init__",
            [("offset += numpyArray.size", "offset += len(numpyArray)")]),
     Mutant("JaggedArray.unpack tests the non-None counter against noneLocations", "armi.bookkeeping.db.jaggedArray:JaggedArray.unpack",
